@@ -13,7 +13,9 @@
 (***************************************************************************)
 EXTENDS Verifier
 
-HasDoc(in) == IF in.entry \in {"vVerify", "nVerify"} THEN in.construct \in {"oci", "both"} ELSE in.construct \in {"blob", "both"}
+(* constructions with an invalid document of one kind next to a valid one of the other kind: refused as a whole *)
+BadConstruct(in) == in.construct \in {"both-badBlob", "both-badOCI"}
+HasDoc(in) == IF BadConstruct(in) THEN FALSE ELSE IF in.entry \in {"vVerify", "nVerify"} THEN in.construct \in {"oci", "both"} ELSE in.construct \in {"blob", "both"}
 
 EnvOf(sig) == [parse |-> sig \in {"valid", "invalid"}, sigValid |-> sig = "valid", ptype |-> "notary", pjson |-> TRUE]
 VIn(in) ==
@@ -29,6 +31,7 @@ VRes(in) == Obs(Run(Start(VIn(in))))
 (* expected observation: [ok (err = nil), outcome ("nil"|"present"), outErr] - never a panic *)
 Expected(in) ==
   LET v == VRes(in) IN
+  IF BadConstruct(in) THEN [ok |-> FALSE, outcome |-> "nil", outErr |-> FALSE] ELSE
   CASE in.entry \in {"vVerify", "vVerifyBlob"} -> [ok |-> v.verdict = "success", outcome |-> v.out, outErr |-> v.outErr]
     [] in.entry = "nVerifyBlob" ->
          IF in.sig = "empty" THEN [ok |-> FALSE, outcome |-> "nil", outErr |-> FALSE]           \* refused before the verifier is asked
